@@ -55,6 +55,9 @@ CHECKS = {
  "C20": dict(cat="model_checking", design="§3 C20", technique="explicit-state breadth-first search over histories of a real Compiler instance, state key = latest_tx_body bytes, invariant checked in every state for every target",
    text="A state is a history of resolutions / direct compilations replayed on a fresh identically configured tx3_cardano::Compiler, identified by the bytes of latest_tx_body (the other fields are asserted unchanged at every transition). From every reachable state every one of 11 actions is executed on a replica and its outcome (payload, hash, fee | error kind | panic) compared with the outcome on a fresh instance. Every transition is an execution of resolve_tx / compile.",
    note="The reachable state space closes after one step when the property holds (the state is the last compiled body); depth bound 3 (thorough 4); 2 stores x 2 protocol-parameter sets."),
+ "C07": dict(cat="model_checking", design="§3 C07", technique="explicit-state search of the stage-order graph over real TIR values (all 24 stage orders x all reduce placements), invariants on every state and on the set of terminals",
+   text="Per template a breadth-first search explores states (canonical TIR, applied stage set, last-was-reduce) whose transitions are the real apply_args / apply_inputs / apply_fees / Node::apply(compiler) / reduce, with compiler ops enabled exactly when a generic walk finds their operands free of unresolved parameters. All terminal states must carry one canonical template, no schedule may fail when another succeeds, and reduce must be idempotent in every state. Templates: corpus, built-in bases (literal / param / env / local operands), all tirgen trees of depth <= 1.",
+   note="Canonical form sorts maps, UTxO sets and asset lists (sums); single-UTxO inputs; fresh compiler per compiler-op stage."),
 }
 PENDING = {}
 
